@@ -16,11 +16,11 @@ import (
 // VhHTLC draws the hash field of an HTLC secret and a witness preimage:
 // hash: well-formed (sha256 of some preimage) / short / non-hex; preimage: the right one / another one / non-hex / empty.
 type VhHTLC struct {
-	Data      string // the hash field of the secret
-	Preimage  string // the witness preimage
-	Real      string // the bytes whose sha256 the hash field holds (when well-formed)
-	HashOK    bool   // the hash field is 64 hex characters
-	PreimgOK  bool   // the witness preimage is the (hex encoded) preimage of the hash field
+	Data     string // the hash field of the secret
+	Preimage string // the witness preimage
+	Real     string // the bytes whose sha256 the hash field holds (when well-formed)
+	HashOK   bool   // the hash field is 64 hex characters
+	PreimgOK bool   // the witness preimage is the (hex encoded) preimage of the hash field
 }
 
 func VhNewHTLC(tag string) VhHTLC {
